@@ -1233,9 +1233,10 @@ def trim_cast_varchar(expression: exp.Expression) -> exp.Expression:
     if isinstance(operand, exp.Cast) and operand.to.this in [exp.DataType.Type.VARCHAR, exp.DataType.Type.TEXT]:
         return expression
 
-    return exp.Trim(
-        this=exp.Cast(this=operand, to=exp.DataType(this=exp.DataType.Type.VARCHAR, nested=False, prefix=False))
-    )
+    # keep the other arguments: the characters to trim and LEADING/TRAILING for LTRIM/RTRIM
+    new = expression.copy()
+    new.set("this", exp.Cast(this=operand, to=exp.DataType(this=exp.DataType.Type.VARCHAR, nested=False, prefix=False)))
+    return new
 
 
 def try_parse_json(expression: exp.Expression) -> exp.Expression:
